@@ -72,9 +72,10 @@
 (*     bytes are never charged twice: a transaction that charges a fee     *)
 (*     consumes the fee payer's sequence number (replay protection,        *)
 (*     authenticator/replay_protection.go).  When the payer's message is   *)
-(*     authenticated and a later message is not, ante.go keeps the fee;    *)
-(*     the statement leaves open whether the fee is then kept (and the     *)
-(*     payer's sequence consumed) or nothing is charged.                   *)
+(*     authenticated and the ante phase still fails (a later message is    *)
+(*     refused, a Track call fails) the statement leaves open whether the  *)
+(*     fee is kept (and the payer's sequence consumed) or nothing is       *)
+(*     charged.                                                            *)
 (*  P12 genesis.  ExportGenesis followed by InitGenesis reproduces the     *)
 (*     lists, the active flag and the id counter (P2 continues to hold).   *)
 (*                                                                         *)
@@ -92,10 +93,10 @@
 (***************************************************************************)
 EXTENDS Integers, Sequences, FiniteSets
 
-CONSTANTS ConfirmAfterFailedExec,  \* FALSE = P9 as stated.  TRUE describes the tree as it is (finding X05-1):
+CONSTANTS ConfirmAfterFailedExec,  \* FALSE = P9 as stated.  TRUE additionally allows the tree as it is (finding X05-1):
                                    \* the post handler also runs after a failed execution.
-          FeeWithoutSequence       \* FALSE = P11 as stated.  TRUE describes the tree as it is (finding X05-2): when a
-                                   \* later message is refused the fee is kept and no sequence number is consumed.
+          FeeWithoutSequence       \* FALSE = P11 as stated.  TRUE additionally allows the tree as it is (finding X05-2):
+                                   \* when a later message is refused the fee is kept and no sequence number is consumed.
 
 VARIABLES
     conf,    \* [accts : set, names : set, ctrl : set of accounts]   (constant within a history)
@@ -279,8 +280,7 @@ AnteOutcomesAuth(S, tx) ==
     IF AnteOKAuth(S, tx)
     THEN {BumpSeq([Charge(S, tx) EXCEPT !.ls = Apply(@, "track", TrackCalls(S, tx))], tx)}
     ELSE IF ~FeeCharged(S, tx) THEN {S}
-    ELSE IF FeeWithoutSequence THEN {Charge(S, tx)}
-    ELSE {BumpPayer(Charge(S, tx), tx), S}
+    ELSE {BumpPayer(Charge(S, tx), tx), S} \cup (IF FeeWithoutSequence THEN {Charge(S, tx)} ELSE {})
 
 \* --- ante, classic flow: the accounts' own signatures decide, no authenticator is consulted
 AnteOKClassic(S, tx) == tx.stale = ""
@@ -342,10 +342,11 @@ TxAnte ==
 TxExec ==
     /\ fl.ph = "exec"
     /\ LET r == Exec(St, fl.tx)
-           late == IF ConfirmAfterFailedExec /\ ~r.ok /\ UsePost(r.X, fl.tx)
-                   THEN Calls("confirm", ConfCalls(r.X, fl.tx)) ELSE <<>>
-       IN fl' = [fl EXCEPT !.ph = IF r.ok THEN "post" ELSE "done", !.ok = r.ok, !.execok = r.ok, !.X = r.X,
-                           !.fresh = r.fresh, !.calls = @ \o r.calls \o late]
+           lates == {<<>>} \cup (IF ConfirmAfterFailedExec /\ ~r.ok /\ UsePost(r.X, fl.tx)
+                                THEN {Calls("confirm", ConfCalls(r.X, fl.tx))} ELSE {})
+       IN \E late \in lates :
+            fl' = [fl EXCEPT !.ph = IF r.ok THEN "post" ELSE "done", !.ok = r.ok, !.execok = r.ok, !.X = r.X,
+                             !.fresh = r.fresh, !.calls = @ \o r.calls \o late]
     /\ UNCHANGED <<conf, active, reg, used, ls, seq, sent, fee, op>>
 
 TxPost ==
